@@ -1,0 +1,72 @@
+//go:build verif
+
+package vgirpc
+
+import (
+	"fmt"
+	"reflect"
+
+	"github.com/apache/arrow-go/v18/arrow"
+)
+
+// Hooks and constants for property C08 (values survive Arrow serialization).
+
+func init() {
+	verifConstProviders = append(verifConstProviders, func() []VerifConst {
+		// decimal column shape, read from what the `decimal` tag derives
+		prec, scale := int64(-1), int64(-1)
+		if dt, _, err := goTypeToArrowType(reflect.TypeOf(""), tagInfo{ArrowType: "decimal"}); err == nil {
+			if d, ok := dt.(*arrow.Decimal128Type); ok {
+				prec, scale = int64(d.Precision), int64(d.Scale)
+			}
+		}
+		return []VerifConst{
+			verifNum("c08_max_struct_depth", maxStructNestDepth),
+			verifNum("c08_dec_precision", prec),
+			verifNum("c08_dec_scale", scale),
+		}
+	})
+}
+
+// VerifC08Serialize is serializeVgirpcStruct (a tagged struct to Arrow IPC
+// bytes); a panic is reported as an error so that one bad case cannot take
+// the harness down.
+func VerifC08Serialize(value any) (data []byte, err error) {
+	defer func() {
+		if r := recover(); r != nil {
+			data, err = nil, fmt.Errorf("PANIC: %v", r)
+		}
+	}()
+	return serializeVgirpcStruct(value)
+}
+
+// VerifC08Deserialize is deserializeParams (row 0 of a batch into a struct of
+// type t).
+func VerifC08Deserialize(batch arrow.RecordBatch, t reflect.Type) (reflect.Value, error) {
+	return deserializeParams(batch, t)
+}
+
+// VerifC08SchemaUncached runs the struct derivation without the per-type memo.
+func VerifC08SchemaUncached(t reflect.Type) (*arrow.Schema, error) {
+	d := buildStructDesc(t)
+	return d.Schema, d.Err
+}
+
+// VerifC08SerializeAS / VerifC08DeserializeAS are the ArrowSerializable pair.
+func VerifC08SerializeAS(v ArrowSerializable) (data []byte, err error) {
+	defer func() {
+		if r := recover(); r != nil {
+			data, err = nil, fmt.Errorf("PANIC: %v", r)
+		}
+	}()
+	return serializeArrowSerializable(v)
+}
+
+func VerifC08DeserializeAS(t reflect.Type, data []byte) (out reflect.Value, err error) {
+	defer func() {
+		if r := recover(); r != nil {
+			out, err = reflect.Value{}, fmt.Errorf("PANIC: %v", r)
+		}
+	}()
+	return deserializeArrowSerializable(t, data)
+}
